@@ -66,7 +66,7 @@ CHECKS = {
         engine="Sky+PairIter",
         technique="TLC model checking of spec/Sky.tla (discrete sky: assignment, radii, pruning, (lo,hi] rule, per-cell weight-product sums) over every scenario of several configuration families, with the scale->angle conversion and the pruning angle taken from the real code as TLC constants; sampled scenarios and every TLC counterexample realised on the real sphere under rigid placements and measured with crosscorrelate/autocorrelate, counts compared cell by cell with TLC's exact integers",
         text="Sky.tla places objects on a 72-slot ring (5 deg lattice) with 2-3 patch centres, 2 redshift bins, one or several (also overlapping / descending) scales in angular, physical and comoving units, weights, and checks for EVERY scenario of each family (10^3..10^5 each) that the conservative pruning of patch pairs loses no pair, that linkage is symmetric and reflexive, that the cells partition the in-scale pairs; it prints the exact expected count of every (scale, bin, patch pair) cell and the per-bin weight sums. Deviation flags (radii of one catalog only; pruning angle at the floored redshift) must produce counterexamples, which are replayed on the code. A stratified sample of scenarios of every family is created with Catalog.from_dataframe on the real sphere (equator, across RA=0, over both poles, tilted great circles) and measured; because every scale threshold lies between lattice distances the counts of cross-, auto- and data-random pairs and sum_weights1/2 must equal the model's integers exactly. PairIter.tla models iter_patch_id_pairs (set.pop as a free choice) for every symmetric reflexive link relation on 3(4) patches: each linked pair exactly once, upper triangle for auto; the real iterator is run on every relation and its output must be one of the orders TLC enumerates.",
-        note="Separations are multiples of 5 deg: geometry between lattice points (C14) is not exercised. Scenarios have 2-3 objects per catalog; separation weighting (rweight) is not covered by the exact comparison.",
+        note="Separations are multiples of 5 deg: geometry between lattice points (C14) is not exercised. Scenarios have 2-3 objects per catalog. With separation weighting TLC supplies the exact weight-product sum per lattice distance and the driver applies the power-law factor of the fine separation bin (plain float arithmetic, 1e-9 relative).",
         ref="DESIGN.md 3.5, 4 C01",
     ),
     "C10": dict(
